@@ -213,6 +213,11 @@ Definition mh_redirect := redirect_m V (list nat) mh_plain.
 Definition mh_redirect_intact := redirect_intact_m V (list nat) mh_plain mh_intact.
 Definition mh_route_ok := route_ok (list nat) mh_ok.
 
+(** LayoutHandler.transpose(source, dest, a, b, buf) for the handler's route [steps] from [cur] *)
+Definition mh_copy (cur : list nat) (src dst : mems V) : mems V :=
+  mat V (fun r A => if A <? mh_size cur r then cell V dflt src r A else cell V dflt dst r A) dst.
+Definition mh_transpose := transpose_m V (list nat) mh_plain mh_intact mh_copy.
+
 (** _transposeRedirect: source and dest are untouched at and beyond E, except that after an even number of
     steps dest is a copy of the whole source array *)
 Theorem mh_redirect_frame cur steps src dst : mh_route_ok cur steps = true -> mh_Wm src -> mh_Wm dst ->
